@@ -421,7 +421,7 @@ func (c *FnCtx) load(st *State, a *Addr) Term {
 	case aElem:
 		key, s := c.g.elemHeapKey(a.rootType)
 		h := c.heap(st, key, s)
-		cell := sel(sel(h, sBase(a.slice)), add(sOff(a.slice), a.idx))
+		cell := sel(sel(h, sBase(a.slice)), eidx(sOff(a.slice), a.idx))
 		return c.readPath(cell, a.path)
 	}
 	panic("bad addr")
@@ -447,7 +447,7 @@ func (c *FnCtx) storeTo(st *State, a *Addr, v Term) {
 		key, s := c.g.elemHeapKey(a.rootType)
 		h := c.heap(st, key, s)
 		base := sBase(a.slice)
-		i := add(sOff(a.slice), a.idx)
+		i := eidx(sOff(a.slice), a.idx)
 		arr := sel(h, base)
 		st.heaps[key] = store(h, base, store(arr, i, c.writePath(sel(arr, i), a.path, v)))
 	}
